@@ -30,7 +30,7 @@ VERIF = os.path.dirname(os.path.dirname(os.path.abspath(__file__)))
 PY = sys.executable
 CHECK = os.path.join(VERIF, "check")
 RUN_WATCHDOG_S = 120          # real seconds per single simulated run before the worker is killed
-MAX_SIGS = 12                 # distinct violation signatures minimised per invocation
+MAX_SIGS = int(os.environ.get("VERIF_MAX_SIGS", "12"))                 # distinct violation signatures minimised per invocation
 
 
 def repo_path():
